@@ -40,6 +40,7 @@ func init() {
 			}
 			return []runner.Phase{
 				{Name: "close-at-wake", Variant: "race", Cases: cw, Run: closeAtWake, CaseTimeout: 60 * time.Second, Required: []string{"close_at_wake_cases", "close_reached_stop_while_parked"}},
+				{Name: "close-parked", Variant: "race", Cases: cw, Run: closeParked, CaseTimeout: 60 * time.Second, Required: []string{"close_parked_cases"}},
 				{Name: "close-vs-reconnect", Variant: "race", Cases: n * 2, Run: c17closeReconnect, CaseTimeout: 40 * time.Second, Required: []string{"closes_checked"}},
 				{Name: "scenarios", Variant: "race", Cases: n, Run: c17case, CaseTimeout: 60 * time.Second,
 					Required: []string{"fill_storms", "api_mixes", "close_races", "uneven_fills", "closes_checked", "pool_samples", "control_loss_before_close"}},
